@@ -1,6 +1,6 @@
 (* Codec/Extract.v — extraction of the C12 model (ExtrOcamlBasic only) *)
 From Coq Require Import ExtrOcamlBasic.
-From ZV Require Import Codec.Consts Codec.MemCmp Codec.Keys.
+From ZV Require Import Codec.Consts Codec.MemCmp Codec.Keys Codec.RangeOps.
 Extraction Language OCaml.
 Extraction "model.ml" Z.of_N N.of_nat Nat.add
   encode_bytes encode_bytes_desc decode_bytes peek_bytes
@@ -23,4 +23,6 @@ Extraction "model.ml" Z.of_N N.of_nat Nat.add
   encode_ver_key decode_ver_key
   exp_encode_time_key exp_decode_time_key exp_encode_meta_key exp_decode_meta_key
   get_table_data_range get_table_meta_range in_range in_range_closed
-  list_min_seq list_max_seq list_initial_seq.
+  list_min_seq list_max_seq list_initial_seq
+  in_range_t range_iter hash_clear_keys hash_read_keys set_clear_keys set_read_keys bitmap_clear_keys
+  list_clear_keys zset_clear_score_keys zset_member_key_of_score_key.
